@@ -25,6 +25,12 @@ theorem every_function_has_a_role : elAccesses.all (fun a => (roleOf a.fn).isSom
 whose roles can overlap in time, hold a common mutex, or are both atomic, or are ordered by the Stop protocol -/
 theorem race_free : raceFree elAccesses = true := by decide +kernel
 
+/-- the same for the fields of the job objects (Timer, Interval, Immediate): they are touched on the loop goroutine
+only, except `ticker`, which the interval's own goroutine reads after the `go` statement that follows the write -/
+theorem race_free_jobs :
+    jobAccesses.all (fun a => (jobRoleOf a.fn).isSome) = true ∧ jobRaceFree jobAccesses = true := by
+  constructor <;> decide +kernel
+
 /-- the only access ordered by protocol rather than by a lock is Stop()'s final read of jobCount … -/
 theorem protocol_exceptions : protocolOrdered = [("EventLoop.Stop", "jobCount")] := rfl
 
